@@ -190,7 +190,15 @@ class LoopCheck(Check):
             for route in routes:
                 if route == "file":
                     continue
-                src = ck["bytes"] if route == "bytes" else pickle.loads(ck["bytes"])
+                if route == "bytes":
+                    src = ck["bytes"]
+                elif route == "live_dict":
+                    # the very dictionary the callback was handed, as a user who
+                    # keeps checkpoints in memory would hold it -- after the run
+                    # has moved on
+                    src = ck["live_state"]
+                else:
+                    src = pickle.loads(ck["bytes"])
                 res = self.new_env(ctx, cfg, fns, tag=f"r{k}", rng=SymRng(ctx, "other", 77))
                 res.kernel_offset = ck["n_acc"]
                 res.run(resume_from=src, checkpoint="callback", checkpoint_every=1)
